@@ -8,6 +8,8 @@ CONSTANTS
     DecrAfterSilence = TRUE
     UseSem = TRUE
     NotifyArm = TRUE
+    AwaitBodyOnTimeout = TRUE
+    Timeouts = TRUE
     BroadcastAll = TRUE
 INIT Init
 NEXT Next
